@@ -51,33 +51,33 @@ Ltac replay2 :=
 (* ---------- the state functions ---------- *)
 Ltac fn H := start H; replay2.
 
-Lemma lex_text_det l res : lex_text inp1 n1 base l = Ok res -> l_pos (snd res) + M <= h -> lex_text inp2 n2 base l = Ok res.
+Lemma lex_text_det l res : lex_text inp1 n1 base l = Ok res -> l_pos (snd res)+ m_text <= h -> lex_text inp2 n2 base l = Ok res.
 Proof using All.
   intros H Hb. unfold lex_text in *. pose proof (h_le1 pre r1); pose proof (h_le2 pre r2).
   pose proof (lex_text_loop_mono _ _ _ _ _ _ H).
   apply (lex_text_loop_det ul ud pre r1 r2 base _ _ _ _ H ltac:(side2)). side2.
 Qed.
-Lemma lex_right_delim_det l res : lex_right_delim inp1 n1 base l = Ok res -> l_pos (snd res) + M <= h -> lex_right_delim inp2 n2 base l = Ok res.
+Lemma lex_right_delim_det l res : lex_right_delim inp1 n1 base l = Ok res -> l_pos (snd res)+ m_rdelim <= h -> lex_right_delim inp2 n2 base l = Ok res.
 Proof using All. intros H Hb. unfold lex_right_delim, double_close in *. fn H. Qed.
-Lemma lex_right_delim_end_det l res : lex_right_delim_end inp1 n1 base l = Ok res -> l_pos (snd res) + M <= h -> lex_right_delim_end inp2 n2 base l = Ok res.
+Lemma lex_right_delim_end_det l res : lex_right_delim_end inp1 n1 base l = Ok res -> l_pos (snd res)+ m_rdelim_end <= h -> lex_right_delim_end inp2 n2 base l = Ok res.
 Proof using All. intros H Hb. unfold lex_right_delim_end, double_close in *. fn H. Qed.
-Lemma lex_begin_tag_det l res : lex_begin_tag inp1 n1 l = Ok res -> l_pos (snd res) + M <= h -> lex_begin_tag inp2 n2 l = Ok res.
+Lemma lex_begin_tag_det l res : lex_begin_tag inp1 n1 l = Ok res -> l_pos (snd res)+ m_begin_tag <= h -> lex_begin_tag inp2 n2 l = Ok res.
 Proof using All. intros H Hb. unfold lex_begin_tag in *. fn H. Qed.
-Lemma lex_negative_det l res : lex_negative inp1 n1 base l = Ok res -> l_pos (snd res) + M <= h -> lex_negative inp2 n2 base l = Ok res.
+Lemma lex_negative_det l res : lex_negative inp1 n1 base l = Ok res -> l_pos (snd res)+ m_inside <= h -> lex_negative inp2 n2 base l = Ok res.
 Proof using All. intros H Hb. unfold lex_negative in *. fn H. Qed.
-Lemma lex_inside_tag_det l res : lex_inside_tag inp1 n1 base l = Ok res -> l_pos (snd res) + M <= h -> lex_inside_tag inp2 n2 base l = Ok res.
+Lemma lex_inside_tag_det l res : lex_inside_tag inp1 n1 base l = Ok res -> l_pos (snd res)+ m_inside <= h -> lex_inside_tag inp2 n2 base l = Ok res.
 Proof using All. intros H Hb. unfold lex_inside_tag, lex_negative, emit_to in *. fn H. Qed.
-Lemma lex_line_comment_det l res : lex_line_comment inp1 n1 base l = Ok res -> l_pos (snd res) + M <= h -> lex_line_comment inp2 n2 base l = Ok res.
+Lemma lex_line_comment_det l res : lex_line_comment inp1 n1 base l = Ok res -> l_pos (snd res)+ m_linec <= h -> lex_line_comment inp2 n2 base l = Ok res.
 Proof using All.
   intros H Hb. unfold lex_line_comment in *. pose proof (h_le1 pre r1); pose proof (h_le2 pre r2).
   pose proof (line_comment_loop_mono _ _ _ _ _ H). apply (line_comment_loop_det ul ud pre r1 r2 base _ _ _ H ltac:(side2)). side2.
 Qed.
-Lemma lex_block_comment_det l res : lex_block_comment inp1 n1 base l = Ok res -> l_pos (snd res) + M <= h -> lex_block_comment inp2 n2 base l = Ok res.
+Lemma lex_block_comment_det l res : lex_block_comment inp1 n1 base l = Ok res -> l_pos (snd res)+ m_blockc <= h -> lex_block_comment inp2 n2 base l = Ok res.
 Proof using All.
   intros H Hb. unfold lex_block_comment in *. pose proof (h_le1 pre r1); pose proof (h_le2 pre r2).
   pose proof (block_comment_loop_mono _ _ _ _ _ _ H). apply (block_comment_loop_det ul ud pre r1 r2 base _ _ _ _ H ltac:(side2)). side2.
 Qed.
-Lemma lex_string_det q l res : lex_string inp1 n1 base q l = Ok res -> l_pos (snd res) + M <= h -> lex_string inp2 n2 base q l = Ok res.
+Lemma lex_string_det q l res : lex_string inp1 n1 base q l = Ok res -> l_pos (snd res)+ m_string <= h -> lex_string inp2 n2 base q l = Ok res.
 Proof using All.
   intros H Hb. unfold lex_string in *. pose proof (h_le1 pre r1); pose proof (h_le2 pre r2).
   pose proof (string_loop_mono _ _ _ _ _ _ H). apply (string_loop_det ul ud pre r1 r2 base _ _ _ _ H ltac:(side2)). side2.
